@@ -2,6 +2,7 @@
 //! Usage: mc-core <PROPERTY> <quick|thorough>      |     mc-core <PROPERTY> --replay <file>
 mod conserve;
 mod ledger;
+mod lex;
 mod cli;
 mod perm;
 mod preds;
@@ -39,6 +40,7 @@ fn main() {
         "C10" => ledger::c10(tier),
         "C11" => ledger::c11(tier),
         "C12" => ledger::c12(tier),
+        "C13" => lex::c13(tier),
         other => machinery_failure(&format!("mc-core has no engine for {other}")),
     };
     std::process::exit(code);
